@@ -1,11 +1,11 @@
 SPECIFICATION Spec
-CONSTANTS MaxH = 4
-          MaxCrash = 4
+CONSTANTS MaxH = 6
+          MaxCrash = 6
           MaxMut = 0
           MaxLen = 99
           Kinds = {}
           HdrOps = {}
-          Paths = {"submit"}
+          Paths = {"submit", "add"}
           MixPaths = FALSE
           RecoverAsCoded = FALSE
           KeepTreeOnWipe = FALSE
